@@ -252,6 +252,9 @@ def real_detectors(ctx):
         base[b:b + 2, 0] -= 7.0         # a second, adjacent event
         if rep % 2 == 0:
             base[int(rng.integers(0, a - 2)), rep % 4 // 2] += 16.0      # an isolated spike BEFORE the collective event (a point anomaly precedes a collective one)
+        if rep % 2 == 1 or rep % 4 == 0:
+            if b + 6 < n - 1:
+                base[int(rng.integers(b + 5, n - 1)), 0] -= 17.0          # ... and one AFTER it (a collective anomaly precedes a point anomaly): time order, not kind order
         dets = [("PELT", lambda: PELT(), 2), ("MovingWindow", lambda: MovingWindow(bandwidth=4), 2),
                 ("SeededBinarySegmentation", lambda: SeededBinarySegmentation(), 2),
                 ("CAPA", lambda: CAPA(), 2), ("MVCAPA", lambda: MVCAPA(), 2),
